@@ -6,4 +6,5 @@ INVARIANT EmitDone
 INVARIANT TypeOK
 INVARIANT JumpsWellFormed
 INVARIANT UnboundOnlyInFun
+INVARIANT LiveInsideLive
 CHECK_DEADLOCK FALSE
